@@ -276,9 +276,17 @@ def build_config(proj, R, quote=True, extra=None):
     for k, v in extra.items():
         lines.append(f"{k} = {v}")
     lines += ["", "[bumpver:file_patterns]"]
-    for key, pats in proj.entries:
-        lines.append(f"{key} =")
-        for p in pats:
+    for i, (key, pats) in enumerate(proj.entries):
+        # layouts: patterns on continuation lines; or the first pattern on the key's own line (chosen
+        # deterministically from the entry so that rebuilding the config gives the same text)
+        inline = (len(key) + len(pats[0]) + i) % 3 == 0 and not pats[0].startswith(("#", ";"))
+        if inline:
+            lines.append(f"{key} = {pats[0]}")
+            rest = pats[1:]
+        else:
+            lines.append(f"{key} =")
+            rest = pats
+        for p in rest:
             lines.append(f"    {p}")
     return "\n".join(lines) + "\n"
 
